@@ -322,7 +322,7 @@ LEVEL_TEXT = ("Mixed. Deductive (symbolic, z3, HMAC uninterpreted): PBKDF2.read/
               "Exhaustive: the 2048-word list (distinct, sorted, unique 4-letter prefixes, no prefix equal to another word, canonical SHA-256, lookup table of the real WordList "
               "object has exactly the full words and 4-letter prefixes). Bounded against an independent BIP39/RFC 8018/BIP32 spec: all five entropy sizes with boundary and random "
               "entropies, every single-word substitution of sampled phrases accepted exactly when the checksum still matches, prefix forms, wrong lengths, seeds with/without "
-              "(non-ASCII) passphrases, master xprv, Trezor vectors. Not 'proof': word/strings handling is outside the symbolic engine and the 2048-round instance is not unrolled; "
-              "one finding keeps a clause failing (bytes_to_mnemonic does not check len(b)*8 == num_bits).")
+              "(non-ASCII) passphrases, master xprv, Trezor vectors. Not 'proof': word/strings handling is outside the symbolic engine and the 2048-round instance is not unrolled.  "
+              "The defects these checks found on the pinned tree are repaired by fix: commits in /repo (one `fixed:` line each in /verif/KNOWN_FINDINGS.jsonl).")
 LEVEL_NOTE = ("trusted: pyvc translation (A-ENGINE), spec functions (A-SPEC), CPython builtin contracts (A-BUILTIN), HMAC uninterpreted or CPython's; "
               "induction from c<=2 to c=2048 is a manual step; termination not verified")
